@@ -123,7 +123,11 @@ class C01(Check):
         digests = [base.digest()]
         res.stats["executions"] += 1
         done = len(base.completed_batches()) if base.cal is not None else 0
+        from sim.core import subprocess_ok
         for env in scn["perturbations"]:
+            if env.get("real_pool") and not subprocess_ok():
+                res.stats["skipped:real-pool(no subprocess)"] += 1
+                continue
             label = perturbation_label(env)
             other = calsim.CalSim(scn, env=env, label=label).run()
             res.stats["executions"] += 1
@@ -131,6 +135,10 @@ class C01(Check):
                 if k != "salt":
                     res.stats[f"perturb:{k}"] += 1
             res.stats.update(other.stats)
+            if env.get("real_pool") and other.op_results and other.op_results[0]["exc"] and not (base.op_results and base.op_results[0]["exc"]):
+                # the real worker pool could not do its job in this sandbox: a confirmation that did not take place
+                res.stats["skipped:real-pool-raised:" + other.op_results[0]["exc"][0]] += 1
+                continue
             probe = Result()
             compare(base, other, label, probe)
             if probe.violations and len([k for k in env if k != "salt"]) > 1:
@@ -154,7 +162,10 @@ class C01(Check):
             if done >= 2:
                 res.extra_keys.append(jdigest([scn["config"], label]))
         if scn.get("hashseed"):
-            self.hashseed_twin(scn, digests[0], res)
+            if subprocess_ok():
+                self.hashseed_twin(scn, digests[0], res)
+            else:
+                res.stats["skipped:hashseed-twin(no subprocess)"] += 1
         if base.op_results and base.op_results[0]["exc"]:
             res.stats["baseline-raised"] += 1
         if base.op_results and base.op_results[0]["snap"]["batch_index"] < scn["ops"][0][1] and not base.op_results[0]["exc"]:
